@@ -169,9 +169,67 @@ class SxDateTime(metaclass=_DtMeta):
 
     @staticmethod
     def strptime(s, fmt):
-        if isinstance(s, (SymStr, Tainted)):
-            raise Unsupported("datetime.strptime(symbolic str)")
+        if isinstance(s, Tainted):
+            raise Unsupported("datetime.strptime(tainted str)")
+        if isinstance(s, SymStr):
+            return sym_strptime(s, fmt)
         return _real_dt.strptime(s, fmt)
+
+
+def sym_strptime(s, fmt):
+    """``datetime.strptime`` for a fixed-length symbolic text and a format made of literals and the
+    directives %Y %y %m %d %H %M %S.  Only the full-width reading is modelled (every numeric field at
+    its maximum width, which is the only reading when ``len(s)`` equals the full-width length); a text of
+    another length, or a non-digit in a numeric field, is reported as unsupported/ValueError the way
+    ``_strptime`` would: wrong literal -> ValueError, field out of range -> ValueError."""
+    widths = {"Y": 4, "y": 2, "m": 2, "d": 2, "H": 2, "M": 2, "S": 2}
+    plan, i = [], 0
+    while i < len(fmt):
+        if fmt[i] == "%":
+            d = fmt[i + 1]
+            if d not in widths:
+                raise Unsupported(f"strptime %{d} on a symbolic str")
+            plan.append((d, widths[d]))
+            i += 2
+        else:
+            plan.append((fmt[i], 0))
+            i += 1
+    full = sum(w or 1 for _, w in plan)
+    cs = s.chars
+    if len(cs) != full:
+        raise Unsupported(f"strptime: symbolic text of length {len(cs)}, only the full-width reading ({full}) is modelled")
+    pos, vals = 0, {}
+    for d, w in plan:
+        if w == 0:
+            c = cs[pos]
+            ok = (c == d) if isinstance(c, str) else sbool(c == ord(d))
+            if not bool(ok):
+                raise ValueError("time data does not match format")
+            pos += 1
+            continue
+        e = K(0)
+        for c in cs[pos:pos + w]:
+            if isinstance(c, str):
+                if not ("0" <= c <= "9"):
+                    raise Unsupported("strptime: non-digit in a numeric field (1-digit/blank-padded readings not modelled)")
+                e = e * 10 + (ord(c) - 48)
+            else:
+                if not bool(sbool(z3.And(c >= 48, c <= 57))):
+                    raise Unsupported("strptime: non-digit in a numeric field (1-digit/blank-padded readings not modelled)")
+                e = e * 10 + (c - 48)
+        vals[d] = SymInt(e)
+        pos += w
+    # the directive regexes of _strptime, full-width alternatives only
+    rng = {"m": (1, 12), "d": (1, 31), "H": (0, 23), "M": (0, 59), "S": (0, 61)}
+    for d, (lo, hi) in rng.items():
+        if d in vals and not bool(sbool(z3.And(vals[d].e >= lo, vals[d].e <= hi))):
+            raise ValueError("time data does not match format")
+    if "y" in vals:
+        y = vals["y"]
+        year = SymInt(z3.If(y.e <= 68, y.e + 2000, y.e + 1900))
+    else:
+        year = vals.get("Y", 1900)
+    return SymDateTime(year, vals.get("m", 1), vals.get("d", 1), vals.get("H", 0), vals.get("M", 0), vals.get("S", 0))
 
 
 class _DateMeta(type):
